@@ -61,7 +61,7 @@ CHECKS = {
   ),
   "C01": dict(
     technique="property-based testing against a reference model (proptest): recorded dependencies vs what the structured sources declare; per-entry prediction from the world; model-free closure (nothing unreachable present, nothing reachable absent)",
-    text="Worlds are generated as structured sources (the model never parses text). For every built graph: (a) each module's dependency map (text, code/type target, attribute, static-vs-dynamic, import kinds, types dependency, source map) equals engine/src/refmodel.rs under the resolver and graph kind in use; (b) every entry's kind is one the world allows (exactly predicted for targets whose every request carries `type: "json"`: JSON is a module, anything else an assertion error) and every redirect is one the loader gave; (c) every entry is reachable from roots/configured imports along followed edges and every followed target has an entry. Exploration only; jsr: specifiers are left to C06/C07.",
+    text="Worlds are generated as structured sources (the model never parses text). For every built graph: (a) each module's dependency map (text, code/type target, attribute, static-vs-dynamic, import kinds, types dependency, source map) equals engine/src/refmodel.rs under the resolver and graph kind in use; (b) every entry's kind is one the world allows (exactly predicted for targets whose every request carries the attribute type json: JSON is a module, anything else an assertion error) and every redirect is one the loader gave; (c) every entry is reachable from roots/configured imports along followed edges and every followed target has an entry. Exploration only; jsr: specifiers are left to C06/C07.",
     design_ref="DESIGN.md §4 C01",
     note="Trusted: the reference model (DESIGN Appendix A.2), deno_path_util URL resolution, deno_media_type media-type mapping, the renderer. Context-sensitive acceptance through two requests is a known finding.",
   ),
